@@ -104,6 +104,11 @@ def case(draw):
     if header:
         hinfo = {"cop": [V.notice("spdx", "2019", draw(V.safe_holder()))], "lic": [draw(st.sampled_from(["MIT", "GPL-3.0-or-later", "Apache-2.0 OR MIT"]))]}
     req = draw(AN.request(max_holders=2))
+    if decl and draw(st.integers(0, 3)) == 0:
+        # the first line recurs verbatim further down (a script writing a script, a quoted XML declaration)
+        post = post + [decl, "int after_dup; ~299~"]
+    if hinfo:
+        hinfo["trail"] = draw(st.lists(st.sampled_from(["", "", " ", "  ", "\t", " \t "]), min_size=6, max_size=6))
     return {"style": style, "eol": eol, "bom": bom, "decl": decl, "header": header, "hinfo": hinfo, "pre": pre, "post": post,
             "final_newline": draw(st.sampled_from([True, True, False])), "no_replace": draw(st.integers(0, 3)) == 0, "req": req}
 
@@ -111,8 +116,12 @@ def case(draw):
 def header_lines(style, form, hinfo):
     body = hinfo["cop"] + [""] + [f"SPDX-License-Identifier: {x}" for x in hinfo["lic"]]
     if form == "multi" and S.has_multi(style) or not S.has_single(style):
-        return S.wrap_block(style, body)
-    return S.wrap_single(style, body)
+        out = S.wrap_block(style, body)
+    else:
+        out = S.wrap_single(style, body)
+    trail = hinfo.get("trail") or []
+    # trailing blanks on lines of the existing header (never part of a tag value)
+    return [ln + (trail[i % len(trail)] if trail else "") for i, ln in enumerate(out)]
 
 
 def build(c):
@@ -208,22 +217,62 @@ def check(ctx, c):
         # ---- declaration first
         if c["decl"] and (not out_lines or out_lines[0].rstrip("\r\n") != c["decl"]):
             ctx.fail(case_d, f"first-line declaration {c['decl']!r} is no longer the first line: {out_lines[:2]!r}")
-        # ---- locate outside lines (with their terminators)
-        i = 0
-        while i < len(O) and i < len(out_lines) and out_lines[i] == O[i]:
-            i += 1
-        if i < len(O) and i < len(out_lines) and O[i].strip() and out_lines[i].rstrip() == O[i].rstrip() and out_lines[i].endswith(eol):
-            i += 1  # trailing blanks of the line directly before the header may go (and it now ends in an EOL)
-        j = 0
-        while j < len(O) - i and j < len(out_lines) - i and out_lines[len(out_lines) - 1 - j] == O[len(O) - 1 - j]:
-            j += 1
-        lost = [x for x in O[i:len(O) - j] if x.strip()]
-        if lost:
-            ctx.fail(case_d, f"outside line(s) not kept byte-for-byte (terminator included): {lost[:3]!r}; output lines {out_lines[:14]!r}...")
+        # ---- locate outside lines (with their terminators).  A kept old header may hold the very lines the new one
+        # starts with, so both greedy alignments are tried; the file is fine if either explains it.
+        def align(prefix_first):
+            def pref(limit):
+                i = 0
+                while i < limit and i < len(out_lines) and out_lines[i] == O[i]:
+                    i += 1
+                if i < limit and i < len(out_lines) and O[i].strip() and out_lines[i].rstrip() == O[i].rstrip() and out_lines[i].endswith(eol):
+                    i += 1  # trailing blanks of the line directly before the header may go (and it now ends in an EOL)
+                return i
+
+            def suff(limit):
+                j = 0
+                while j < limit and j < len(out_lines) and out_lines[len(out_lines) - 1 - j] == O[len(O) - 1 - j]:
+                    j += 1
+                return j
+
+            if prefix_first:
+                i = pref(len(O))
+                j = suff(min(len(O) - i, len(out_lines) - i))
+            else:
+                j = suff(len(O))
+                i = pref(min(len(O) - j, len(out_lines) - j))
+            return i, j
+
+        def problems(i, j):
+            lost = [x for x in O[i:len(O) - j] if x.strip()]
+            if lost:
+                return f"outside line(s) not kept byte-for-byte (terminator included): {lost[:3]!r}; output lines {out_lines[:14]!r}..."
+            middle = out_lines[i:len(out_lines) - j]
+            for m in middle:
+                if "~" in m and any(f"~{t}~" in m for t in range(100, 1000)):
+                    return f"an outside line appears altered inside the header region: {m!r}"
+            core = [m.rstrip("\r\n") for m in middle if m.strip()]
+            single, multi = S.STYLES[style]
+            if core:
+                if single is not None:
+                    bad = [m for m in core if not m.startswith(single)]
+                    if bad:
+                        return f"line(s) that are neither outside lines nor part of a {style} comment appeared next to the header: {bad[:3]!r}; region {core!r}"
+                else:
+                    start_, _mid, end_ = multi
+                    ends = [m for m in core if m.rstrip().endswith(end_.strip())]
+                    if not core[0].startswith(start_) or not core[-1].rstrip().endswith(end_.strip()) or len(ends) != 1:
+                        return f"the inserted region is not one {style} comment block: {core!r}"
+            return None
+
+        i, j = align(True)
+        msg = problems(i, j)
+        if msg:
+            i2, j2 = align(False)
+            if problems(i2, j2) is None:
+                i, j, msg = i2, j2, None
+        if msg:
+            ctx.fail(case_d, msg)
         middle = out_lines[i:len(out_lines) - j]
-        for m in middle:
-            if "~" in m and any(f"~{t}~" in m for t in range(100, 1000)):
-                ctx.fail(case_d, f"an outside line appears altered inside the header region: {m!r}")
         joined = "".join(middle)
         for w in list(AN.requested_notices(dict(c["req"], years=c["req"]["years"] or ([] if c["req"]["exclude_year"] else ["2022"])))) + \
                 [f"SPDX-FileContributor: {x}" for x in c["req"]["contributors"]]:
